@@ -159,7 +159,7 @@ Proof.
   - (* crash during recovery *)
     destruct Hi as (E & Hg & Hh).
     destruct (open_walk (c_fs c) E Hg) as [[Hp _] _].
-    destruct (Hp k img Hc) as [Hrec|(p & Hp' & _)]; [|discriminate].
+    destruct (Hp None k img Hc) as [Hrec|(p & Hp' & _)]; [|discriminate].
     exists E. split; [eapply rec_good_image; eauto|exact Hh].
   - (* an operation completes *)
     destruct Hi as (HR & (ch & Hsub & HE) & Hseq).
@@ -171,7 +171,7 @@ Proof.
   - (* crash during an operation *)
     destruct Hi as (HR & (ch & Hsub & HE) & _).
     destruct (op_walk (c_fs c) v o HR Ha) as [Hp _].
-    destruct (Hp k img Hc) as [Hrec|(p & Hp' & Hrec)].
+    destruct (Hp None k img Hc) as [Hrec|(p & Hp' & Hrec)].
     + exists (all_entries v). split; [eapply rec_good_image; eauto|].
       exists ch. cbn [c_ack c_fly]. split; [|exact HE]. unfold ack_next. destruct (op_batch v o); [now apply sub_app_skip|exact Hsub].
     + exists (all_entries v ++ p). split; [eapply rec_good_image; eauto|].
